@@ -57,7 +57,7 @@ func Union(c explore.Chooser) *prog.Program {
 		{"Tags", "slice", "none", "none"},
 	}
 	circleKind := ""
-	kindsAll := []string{"struct", "int", "slice", "map", "interface", "struct-other-file", "struct-in-sub"}
+	kindsAll := []string{"struct", "int", "slice", "map", "interface", "struct-other-file", "struct-in-sub", "struct-promoted-methods", "struct-promoted-pointer-methods"}
 	implAll := []string{"value", "pointer", "none"}
 	for _, k := range cands {
 		site := k.name
@@ -98,6 +98,25 @@ func Union(c explore.Chooser) *prog.Program {
 			fmt.Fprintf(out, "func %s %s()%s {%s}\n\n", recv(impl == "pointer"), name, sig, body)
 		}
 		switch kind {
+		case "struct-promoted-methods", "struct-promoted-pointer-methods":
+			// the type declares no method itself: its method set comes from an embedded base
+			base := "base" + k.name
+			fmt.Fprintf(out, "type %s struct {\n\tB%s int\n}\n\ntype %s struct {\n\t%s\n\tV%s int\n}\n\n", base, k.name, k.name, base, k.name)
+			ptr := kind == "struct-promoted-pointer-methods"
+			r := "(" + base + ")"
+			if ptr {
+				r = "(*" + base + ")"
+			}
+			if impl != "none" && nmeth != "0" {
+				fmt.Fprintf(out, "func %s %s() {}\n\n", r, marker)
+				if nmeth == "2" && (k.name == "Circle" || k.name == "Count") {
+					fmt.Fprintf(out, "func %s Area() int { return 0 }\n\n", r)
+				}
+			}
+			if oimpl != "none" {
+				fmt.Fprintf(out, "func %s isOther() {}\n\n", r)
+			}
+			impl, oimpl = "none", "none" // no method of its own
 		case "struct", "struct-other-file", "struct-in-sub":
 			fmt.Fprintf(out, "type %s struct {\n\tV%s int\n}\n\n", k.name, k.name)
 		case "int":
@@ -158,7 +177,7 @@ func Union(c explore.Chooser) *prog.Program {
 	}
 	// a direct field on a candidate so that struct members are also reached as plain fields
 	switch circleKind {
-	case "struct", "struct-other-file":
+	case "struct", "struct-other-file", "struct-promoted-methods", "struct-promoted-pointer-methods":
 		holder = append(holder, "\tC1 Circle")
 	case "struct-in-sub":
 		holder = append(holder, "\tC1 sub.Circle")
